@@ -1927,7 +1927,8 @@ func (schema *Schema) visitJSONObject(settings *schemaValidationSettings, value 
 			reqRO := settings.asreq && propSchema.Value.ReadOnly && !settings.readOnlyValidationDisabled
 			repWO := settings.asrep && propSchema.Value.WriteOnly && !settings.writeOnlyValidationDisabled
 
-			if f := settings.defaultsSet; f != nil && value[propName] == nil {
+			if _, present := value[propName]; settings.defaultsSet != nil && !present {
+				f := settings.defaultsSet
 				if dflt := propSchema.Value.Default; dflt != nil && !reqRO && !repWO {
 					// the default belongs to the (shared) document: nested defaults are
 					// injected into the value below, so hand out a copy
